@@ -56,6 +56,18 @@ type probeDec struct {
 	bar, side, ord int
 	spec           DecSpec
 	calls          int
+	adjusting      bool
+}
+
+// AverageAdjust makes every probe decorator an AverageDecorator. The library calls it from
+// Bar.DecoratorAverageAdjust, atomically with respect to rendering: a Decor call that finds the
+// adjustment half done (the yield lets any other goroutine run in between) is logged.
+func (d *probeDec) AverageAdjust(start time.Time) {
+	d.adjusting = true
+	simrt.Log(simrt.Entry{Kind: EvAvgAdj, ID: d.bar, A: int64(d.side), B: int64(d.ord), S: "begin"})
+	simrt.Yield("probe.AverageAdjust")
+	simrt.Log(simrt.Entry{Kind: EvAvgAdj, ID: d.bar, A: int64(d.side), B: int64(d.ord), S: "end"})
+	d.adjusting = false
 }
 
 // ProbeText is the text the probe decorator (bar, side, ord) returns on its
@@ -74,6 +86,9 @@ func ProbeText(spec DecSpec, bar, side, ord int, current int64, n int) string {
 
 func (d *probeDec) Decor(s decor.Statistics) (string, int) {
 	d.calls++
+	if d.adjusting {
+		simrt.Log(simrt.Entry{Kind: EvAvgAdj, ID: d.bar, A: int64(d.side), B: int64(d.ord), S: "overlap"})
+	}
 	simrt.Log(simrt.Entry{Kind: EvDecor, ID: d.bar, A: int64(d.side), B: int64(d.ord)})
 	return d.Format(ProbeText(d.spec, d.bar, d.side, d.ord, s.Current, d.calls))
 }
@@ -142,8 +157,31 @@ func sizeUnit(style int) interface{} {
 	return 0
 }
 
+// sharedStyles holds one initialised WC value per (W, C) of the scenario's PreInit decorators: a
+// program that keeps "style := decor.WC{...}; style.Init()" around and passes it to many constructors.
+// Written by the main goroutine before the container exists, read-only afterwards.
+var sharedStyles map[[2]int]decor.WC
+
+func initSharedStyles(sc *Scenario) {
+	sharedStyles = map[[2]int]decor.WC{}
+	for i := range sc.Bars {
+		for _, l := range [][]DecSpec{sc.Bars[i].Pre, sc.Bars[i].App} {
+			for _, d := range l {
+				if _, ok := sharedStyles[[2]int{d.W, d.C}]; d.PreInit && !ok {
+					wc := decor.WC{W: d.W, C: d.C}
+					wc.Init()
+					sharedStyles[[2]int{d.W, d.C}] = wc
+				}
+			}
+		}
+	}
+}
+
 func buildDecorator(spec DecSpec, bar, side, ord int) decor.Decorator {
 	wc := decor.WC{W: spec.W, C: spec.C}
+	if spec.PreInit {
+		wc = sharedStyles[[2]int{spec.W, spec.C}]
+	}
 	var d decor.Decorator
 	if spec.Kind != DecProbe {
 		simrt.Log(simrt.Entry{Kind: EvDecNew, ID: bar, A: int64(side), B: int64(ord), V: simrt.PeekNS()})
@@ -274,10 +312,14 @@ func (pf *probeFiller) Fill(w io.Writer, st decor.Statistics) error {
 }
 
 type probeExtender struct {
+	noNL      bool
 	bar, rows int
 	f         *faults
 	calls     int
 }
+
+// FillMsg is the message a bar's filler is replaced with on complete (kind 0) or on abort (kind 1).
+func FillMsg(bar, kind int) string { return fmt.Sprintf("F%c%d!", "CA"[kind], bar) }
 
 // ExtRow is the j-th extender row of a bar.
 func ExtRow(bar, j int) string { return fmt.Sprintf("X%d.%d", bar, j) }
@@ -290,6 +332,12 @@ func (pe *probeExtender) Fill(w io.Writer, st decor.Statistics) error {
 	}
 	for j := 0; j < pe.rows; j++ {
 		if _, err := io.WriteString(w, ExtRow(pe.bar, j)+"\n"); err != nil {
+			return err
+		}
+	}
+	if pe.noNL {
+		// not newline-terminated: not a row
+		if _, err := io.WriteString(w, "Xtail"); err != nil {
 			return err
 		}
 	}
